@@ -70,6 +70,9 @@ pub enum StdinKind {
     /// Nothing connected (/dev/null).
     Null,
     Bytes(Vec<u8>),
+    /// Delivered only after the stdout consumer has read its k bytes and closed
+    /// (only meaningful with StdoutKind::CloseAfter).
+    BytesAfterConsumerLeft(Vec<u8>),
 }
 
 pub struct Run<'a> {
@@ -184,7 +187,7 @@ pub fn run(r: Run) -> ProcOut {
         StdinKind::Null => {
             cmd.stdin(Stdio::null());
         }
-        StdinKind::Bytes(_) => {
+        StdinKind::Bytes(_) | StdinKind::BytesAfterConsumerLeft(_) => {
             cmd.stdin(Stdio::piped());
         }
     }
@@ -252,14 +255,25 @@ pub fn run(r: Run) -> ProcOut {
         });
     }
     // stdin writer
-    let stdin_thread = if let StdinKind::Bytes(b) = &r.stdin {
-        let mut si = child.stdin.take().unwrap();
-        let b = b.clone();
-        Some(std::thread::spawn(move || {
-            let _ = si.write_all(&b);
-        }))
-    } else {
-        None
+    let (gate_tx, gate_rx) = std::sync::mpsc::channel::<()>();
+    let stdin_thread = match &r.stdin {
+        StdinKind::Bytes(b) => {
+            let mut si = child.stdin.take().unwrap();
+            let b = b.clone();
+            Some(std::thread::spawn(move || {
+                let _ = si.write_all(&b);
+            }))
+        }
+        StdinKind::BytesAfterConsumerLeft(b) => {
+            let mut si = child.stdin.take().unwrap();
+            let b = b.clone();
+            Some(std::thread::spawn(move || {
+                // wait until the consumer is gone (or the run is over)
+                let _ = gate_rx.recv_timeout(Duration::from_secs(120));
+                let _ = si.write_all(&b);
+            }))
+        }
+        StdinKind::Null => None,
     };
     // stderr reader
     let mut se = child.stderr.take().unwrap();
@@ -289,6 +303,7 @@ pub fn run(r: Run) -> ProcOut {
             buf.truncate(got);
             stdout = buf;
             drop(so); // the consumer goes away
+            let _ = gate_tx.send(());
         }
         StdoutKind::Pty => {
             let m = pty_master.unwrap();
@@ -307,6 +322,7 @@ pub fn run(r: Run) -> ProcOut {
         }
         _ => {}
     }
+    let _ = gate_tx.send(());
     let status = child.wait();
     done.store(true, Ordering::Relaxed);
     if let Some(t) = stdin_thread {
